@@ -133,7 +133,7 @@ class Folder(object):
                         return base.format(*[f(a) for a in node.args], **dict((k.arg, f(k.value)) for k in node.keywords if k.arg))
                     except Exception as exc:
                         raise Unfoldable(str(exc))
-            if fn in ("Namespace",):
+            if fn.split(".")[-1] == "Namespace" and len(node.args) == 1:
                 return "NSBASE:" + str(f(node.args[0]))
             if fn in ("copy.deepcopy", "copy.copy", "dict", "list", "tuple", "set") and len(node.args) == 1:
                 v = f(node.args[0])
